@@ -296,5 +296,5 @@ func TestC03(t *testing.T) {
 	run.Sample(map[string]interface{}{"classes": []string{"stuckUnsched", "oldAvail", "none"}, "maxUnavailable": "50%", "maxPodSchedulerFailure": "1"})
 	run.Assumptions = []string{"map iteration order controlled by the tool-chain overlay (<= 8 entries: insertion order)",
 		"a terminating pod counts as not available (the statement's 'available daemon pod')"}
-	exit(run.Finish(fmt.Sprintf("every sequence (= node assignment AND map iteration order) of 9 node classes for 1..%d nodes x 7 maxUnavailable x 3 maxPodSchedulerFailure through the real ManageDeployment; Reconcile-level twin (real R_ers on a prepared store) for 1..%d nodes; non-trivial = syncs that delete at least one pod, distinct by (n, #deleted, maxUnavailable)", maxN, twinN)))
+	exit(run.Finish(fmt.Sprintf("every sequence (= node assignment AND map iteration order) of 9 node classes for 1..min(%d,6) nodes (7 nodes: 5 core classes) x 7 maxUnavailable x 3 maxPodSchedulerFailure through the real ManageDeployment; Reconcile-level twin (real R_ers on a prepared store) for 1..%d nodes; non-trivial = syncs that delete at least one pod, distinct by (n, #deleted, maxUnavailable)", maxN, twinN)))
 }
